@@ -21,6 +21,10 @@ CHECKS = {
    tech="TLA+ spec Loader.tla: TLC exhaustive model check of the retry/fallback protocol over all fault x configuration combinations; TLC-enumerated scenarios executed by the real LoadDatabaseWithFallback (unprivileged child, hooked attempts/waits); TLC trace validation",
    text="TLC enumerates every combination of main/personal file fault and retry configuration (5,832 scenarios) and checks, over all behaviours of the retry protocol, that loading ends usable, real iff the files load, with one attempt for missing/permission faults, attempts within budget and waits monotone and capped; every enumerated scenario (a stratified sample in the quick tier) plus random off-grid configurations is materialised on disk and run through the real loader, and the recorded attempt/delay/return events are validated by TLC against the same protocol.",
    note="Needs the recovery observer hook (build tag verif) and the ability to drop to uid 65534 for permission faults; trusted: TLC, Go driver."),
+ "C14": dict(cat="model_checking", ref="DESIGN.md section 5, C14",
+   tech="TLA+ spec Validate.tla (validation as staged function over character-class sequences): TLC checks the theorems on every class sequence; every sequence is concretised and run through the real ValidateQuery; TLC validates each recorded call",
+   text="TLC evaluates acceptance, cleanliness, length and idempotence theorems on every character-class sequence up to length 4/5 (Max scaled to 4 bytes); each sequence is concretised with several representatives per class and run through the real ValidateQuery, as are thousands of random strings, raw byte strings and 999..1001-byte inputs; TLC then checks for each recorded call that the decision and the output class sequence are exactly those of the specification and that re-validation returned the same bytes. Limits are checked the same way.",
+   note="Character classes and the Go classifier are the trusted abstraction; all-strings coverage is by class partition, not bytes."),
 }
 NOT_APPLICABLE = {}
 
